@@ -585,6 +585,9 @@ func (e *ctlEnv) buildDatagram(ev *event) []byte {
 	case "del":
 		m = message.NewSessionDeletionRequest(0, 0, ev.seid, ev.seq, 0)
 	case "srrsp":
+		if ev.fired {
+			pfcp.VerifFireTxTimer(e.srv, fmt.Sprintf("%s:8805-%d", e.ip(ev.peer), ev.seq))
+		}
 		m = message.NewSessionReportResponse(0, 0, ev.seid, ev.seq, 0, ie.NewCause(ie.CauseRequestAccepted))
 	case "other":
 		switch ev.mtype {
